@@ -574,6 +574,10 @@ func checkC08(tier string, seed int64) int {
 		totalRaces = total
 		distinctRaces = len(reports)
 		for _, r := range reports {
+			if r.HarnessOnly {
+				fmt.Printf("HARNESS-RACE (monitor defect, not a verdict about gohlslib): %s\n", r.Key)
+				continue
+			}
 			dir := filepath.Join(ev.Root, "replays", "C08")
 			os.MkdirAll(dir, 0o755)
 			name := strings.NewReplacer("/", "_", "|", "--", "*", "", "(", "", ")", "").Replace(r.Key)
